@@ -141,6 +141,15 @@ class RepoSim:
             self.events.append({"ev": "cp_update", "id": a["id"], "pending": a["pending"], "rc": r["rc"], "out": self.cp_out(r["out"])})
             if r["rc"] == 0:
                 self.cp_set = True
+        elif k == "cp_update_fault":
+            # the change provider fails (or the update is killed) part-way: nothing may have been recorded
+            script = os.path.join(fx.root, "failing-git.sh")
+            with open(script, "w") as f:
+                f.write("#!/bin/sh\n" + ("kill -9 $PPID\n" if a.get("kill") else "") + "exit 128\n")
+            os.chmod(script, 0o755)
+            p = fx.spawn(["checkpoint", "update", "--git-path", script] + (["-p"] if a.get("pending") else []))
+            p.communicate(timeout=60)
+            self.events.append({"ev": "cp_update_fault", "rc": p.returncode})
         elif k == "cp_delete":
             r = fx.monorail(["checkpoint", "delete"])
             self.events.append({"ev": "cp_delete", "rc": r["rc"]})
@@ -197,7 +206,7 @@ def replay_behaviour(bins, beh_index, actions, scheme, ids, ignored, rng, obs_ev
                 break
             k = a["a"]
             sim.analyze()
-            if k in ("cp_update", "cp_delete", "out_delete_all") or rng.random() < 0.15:
+            if k in ("cp_update", "cp_delete", "out_delete_all", "cp_update_fault") or rng.random() < 0.15:
                 sim.show()
             if sim.cp_set and len(sim.shas) >= 1 and rng.random() < 0.35:
                 b = rng.randint(0, len(sim.shas))
@@ -254,6 +263,8 @@ def random_actions(rng, ids, ignored, n, maxc=30):
             acts.append({"a": "commit"}); head = dict(idx); ncommits += 1
         elif r < 0.86:
             acts.append({"a": "cp_update", "id": 0 if rng.random() < 0.7 else rng.randint(1, ncommits), "pending": rng.random() < 0.7}); cp = True
+        elif r < 0.88:
+            acts.append({"a": "cp_update_fault", "pending": rng.random() < 0.5, "kill": rng.random() < 0.4})
         elif r < 0.91 and cp:
             acts.append({"a": "cp_delete"}); cp = False
         elif r < 0.94:
